@@ -63,6 +63,8 @@ struct Local {
     /// the local application does not take what the peer sent: writes (or flushes) stay Pending for ever
     stuck_write: bool,
     stuck_flush: bool,
+    /// size of the default answer of fill_buf (3 bytes in the small scenarios)
+    chunk: usize,
 }
 
 #[derive(Clone)]
@@ -127,7 +129,7 @@ impl AsyncBufRead for Scripted {
         let c = choose(&[Cost::Env, Cost::Env, Cost::Env, Cost::Env]);
         match c {
             0 | 1 => {
-                let n = if c == 0 { rem.min(3) } else { 1 };
+                let n = if c == 0 { rem.min(l.chunk.max(1)) } else { 1 };
                 if l.fill_calls_this_poll > 1 {
                     l.coalesce = true;
                 }
@@ -268,24 +270,33 @@ struct Scn {
     /// "" | "write" | "flush": the local application stops taking data, so that local operation stays Pending for ever;
     /// the other direction (local -> mux) must keep flowing and end with Finish; the bridge itself cannot complete
     stuck: &'static str,
+    /// bytes handed out by a default fill_buf answer (0 = the usual 3)
+    chunk: usize,
 }
 
 fn scenarios(thorough: bool) -> Vec<Scn> {
     let p = |b: &[u8]| PeerEv::Push(b.to_vec());
     let mut v = vec![
-        Scn { name: "local->mux only", local_out: 5, peer: vec![PeerEv::Finish], peer_rwnd: 4, lazy_ack: false, stuck: "" },
-        Scn { name: "mux->local only", local_out: 0, peer: vec![p(b"\xb1\xb2\xb3"), p(b"\xb4"), PeerEv::Finish], peer_rwnd: 4, lazy_ack: false, stuck: "" },
-        Scn { name: "both directions", local_out: 4, peer: vec![p(b"\xb1\xb2"), p(b"\xb3\xb4\xb5"), PeerEv::Finish], peer_rwnd: 4, lazy_ack: false, stuck: "" },
-        Scn { name: "credit exhausted (window 1, lazy acknowledgements)", local_out: 7, peer: vec![p(b"\xb1"), PeerEv::Finish], peer_rwnd: 1, lazy_ack: true, stuck: "" },
-        Scn { name: "peer resets mid-transfer", local_out: 6, peer: vec![p(b"\xb1\xb2"), PeerEv::Reset], peer_rwnd: 2, lazy_ack: false, stuck: "" },
+        Scn { name: "local->mux only", local_out: 5, peer: vec![PeerEv::Finish], peer_rwnd: 4, lazy_ack: false, stuck: "", chunk: 0 },
+        Scn { name: "mux->local only", local_out: 0, peer: vec![p(b"\xb1\xb2\xb3"), p(b"\xb4"), PeerEv::Finish], peer_rwnd: 4, lazy_ack: false, stuck: "", chunk: 0 },
+        Scn { name: "both directions", local_out: 4, peer: vec![p(b"\xb1\xb2"), p(b"\xb3\xb4\xb5"), PeerEv::Finish], peer_rwnd: 4, lazy_ack: false, stuck: "", chunk: 0 },
+        Scn { name: "credit exhausted (window 1, lazy acknowledgements)", local_out: 7, peer: vec![p(b"\xb1"), PeerEv::Finish], peer_rwnd: 1, lazy_ack: true, stuck: "", chunk: 0 },
+        Scn { name: "peer resets mid-transfer", local_out: 6, peer: vec![p(b"\xb1\xb2"), PeerEv::Reset], peer_rwnd: 2, lazy_ack: false, stuck: "", chunk: 0 },
     ];
-    v.push(Scn { name: "local application stops reading: local writes stay Pending", local_out: 5, peer: vec![p(b"\xb1\xb2"), p(b"\xb3")], peer_rwnd: 4, lazy_ack: false, stuck: "write" });
-    v.push(Scn { name: "local application stops reading: local flush stays Pending", local_out: 5, peer: vec![p(b"\xb1\xb2"), p(b"\xb3")], peer_rwnd: 4, lazy_ack: false, stuck: "flush" });
+    v.push(Scn { name: "local application stops reading: local writes stay Pending", local_out: 5, peer: vec![p(b"\xb1\xb2"), p(b"\xb3")], peer_rwnd: 4, lazy_ack: false, stuck: "write", chunk: 0 });
+    v.push(Scn { name: "local application stops reading: local flush stays Pending", local_out: 5, peer: vec![p(b"\xb1\xb2"), p(b"\xb3")], peer_rwnd: 4, lazy_ack: false, stuck: "flush", chunk: 0 });
+    // a fast local producer: three 50 000-byte reads are ready at once (frame size limits, per-frame credit)
+    v.push(Scn { name: "fast local producer, 150 000 B ready at once, window 1", local_out: 150_000, peer: vec![PeerEv::Finish], peer_rwnd: 1, lazy_ack: true, stuck: "", chunk: 50_000 });
     if thorough {
-        v.push(Scn { name: "peer finishes first, long local tail", local_out: 9, peer: vec![PeerEv::Finish], peer_rwnd: 2, lazy_ack: true, stuck: "" });
-        v.push(Scn { name: "window overrun by bridge impossible: 3 pushes then finish", local_out: 2, peer: vec![p(b"\xb1"), p(b"\xb2"), p(b"\xb3"), PeerEv::Finish], peer_rwnd: 3, lazy_ack: true, stuck: "" });
+        v.push(Scn { name: "peer finishes first, long local tail", local_out: 9, peer: vec![PeerEv::Finish], peer_rwnd: 2, lazy_ack: true, stuck: "", chunk: 0 });
+        v.push(Scn { name: "window overrun by bridge impossible: 3 pushes then finish", local_out: 2, peer: vec![p(b"\xb1"), p(b"\xb2"), p(b"\xb3"), PeerEv::Finish], peer_rwnd: 3, lazy_ack: true, stuck: "", chunk: 0 });
     }
     v
+}
+
+/// bytes for messages: everything when short, else the length and the first bytes
+fn hx(v: &[u8]) -> String {
+    if v.len() <= 24 { format!("{v:02x?}") } else { format!("[{} bytes: {:02x?}...]", v.len(), &v[..12]) }
 }
 
 struct BridgeResult(Option<Result<(usize, usize), (io::ErrorKind, String)>>);
@@ -294,7 +305,7 @@ fn exec(sc: &Scn, render: bool) -> RunOutput {
     let cfg = SideCfg { opts: opts(E_RWND, 1), rng: vec![] };
     let mut w = World::one(UNBOUNDED_CAP, 0, &cfg);
     let mut raw = Raw::new(1, w.sim.link.clone());
-    let local = Rc::new(RefCell::new(Local { out: (0..sc.local_out).map(|i| 0xa1 + i as u8).collect(), stuck_write: sc.stuck == "write", stuck_flush: sc.stuck == "flush", ..Local::default() }));
+    let local = Rc::new(RefCell::new(Local { out: (0..sc.local_out).map(|i| 0xa1u8.wrapping_add((i % 251) as u8)).collect(), chunk: if sc.chunk == 0 { 3 } else { sc.chunk }, stuck_write: sc.stuck == "write", stuck_flush: sc.stuck == "flush", ..Local::default() }));
     let result = Rc::new(RefCell::new(BridgeResult(None)));
     {
         let mux = w.mux(0);
@@ -475,10 +486,10 @@ fn exec(sc: &Scn, render: bool) -> RunOutput {
         // ---- per-step safety
         let l = local.borrow();
         if got_pushes.len() > l.consumed || got_pushes[..] != l.out[..got_pushes.len()] {
-            push_viol(&mut viol, "relay.local-to-mux", format!("Push payloads on the wire {:02x?} are not a prefix of what the local side produced and the bridge consumed {:02x?}", got_pushes, &l.out[..l.consumed]));
+            push_viol(&mut viol, "relay.local-to-mux", format!("Push payloads on the wire {} are not a prefix of what the local side produced and the bridge consumed {}", hx(&got_pushes), hx(&l.out[..l.consumed])));
         }
         if l.inn.len() > peer_sent.len() || l.inn[..] != peer_sent[..l.inn.len()] {
-            push_viol(&mut viol, "relay.mux-to-local", format!("bytes written to the local side {:02x?} are not a prefix of what the peer sent {:02x?}", l.inn, peer_sent));
+            push_viol(&mut viol, "relay.mux-to-local", format!("bytes written to the local side {} are not a prefix of what the peer sent {}", hx(&l.inn), hx(&peer_sent)));
         }
         if l.shutdown_ok && !(peer_finished || peer_reset) {
             push_viol(&mut viol, "halfclose.spurious-local-shutdown", "the local side was shut down although the peer has neither finished nor reset the stream".into());
@@ -557,7 +568,7 @@ fn exec(sc: &Scn, render: bool) -> RunOutput {
                 push_viol(
                     &mut viol,
                     "halfclose.direction-held-up",
-                    format!("the local side does not take the peer's data (local {} stays Pending), and the local -> mux direction did not keep flowing: {:02x?} of {:02x?} relayed, Finish sent={finish_from_e}, local eof returned={}", sc.stuck, got_pushes, l.out, l.eof_returned),
+                    format!("the local side does not take the peer's data (local {} stays Pending), and the local -> mux direction did not keep flowing: {} of {} relayed, Finish sent={finish_from_e}, local eof returned={}", sc.stuck, hx(&got_pushes), hx(&l.out), l.eof_returned),
                 );
             }
         }
@@ -574,10 +585,10 @@ fn exec(sc: &Scn, render: bool) -> RunOutput {
             wit |= W_COMPLETED_OK;
             // both directions ended: everything relayed, both half-closes propagated, counts right
             if got_pushes != l.out {
-                push_viol(&mut viol, "relay.local-to-mux-incomplete", format!("bridge completed Ok but only {:02x?} of {:02x?} reached the wire", got_pushes, l.out));
+                push_viol(&mut viol, "relay.local-to-mux-incomplete", format!("bridge completed Ok but only {} of {} reached the wire", hx(&got_pushes), hx(&l.out)));
             }
             if !peer_reset && l.inn != peer_sent {
-                push_viol(&mut viol, "relay.mux-to-local-incomplete", format!("bridge completed Ok but only {:02x?} of {:02x?} reached the local side", l.inn, peer_sent));
+                push_viol(&mut viol, "relay.mux-to-local-incomplete", format!("bridge completed Ok but only {} of {} reached the local side", hx(&l.inn), hx(&peer_sent)));
             }
             if !finish_from_e && !peer_reset {
                 push_viol(&mut viol, "halfclose.no-finish", "bridge completed Ok (local side ended) but no Finish was transmitted".into());
@@ -622,7 +633,8 @@ fn exec(sc: &Scn, render: bool) -> RunOutput {
         push_viol(&mut viol, "task.ended", format!("connection task ended: {:?}", w.task_result[0].borrow()));
     }
     let mut h = Fnv::default();
-    h.str(&format!("{:?} {:?} {:?} {} {} {}", res.0, l.err, got_pushes, l.inn.len(), finish_from_e, l.shutdown_ok));
+    h.str(&format!("{:?} {:?} {} {} {} {}", res.0, l.err, hx(&got_pushes), l.inn.len(), finish_from_e, l.shutdown_ok));
+    h.u64(got_pushes.len() as u64);
     drop(l);
     drop(res);
     let out = RunOutput { blocked: false, steps: w.sim.steps, fingerprints: fps, outcome: h.0, violations: viol, witnesses: wit, horizon, rendering: render.then(|| log.join(" ")) };
@@ -636,7 +648,7 @@ pub fn run(args: &Args) -> Report {
     let thorough = args.thorough();
     let mut cases = Vec::new();
     for sc in scenarios(thorough) {
-        cases.push(Case { try_unbounded: false, max_k: u32::MAX, label: format!("{} | local produces {} B, peer script {:?}, peer window {}, lazy_ack={}{}", sc.name, sc.local_out, sc.peer, sc.peer_rwnd, sc.lazy_ack, if sc.stuck.is_empty() { String::new() } else { format!(", local {} never ready", sc.stuck) }), exec: Box::new(move |r| exec(&sc, r)) });
+        cases.push(Case { try_unbounded: false, max_k: if sc.chunk > 1000 { 1 } else { u32::MAX }, label: format!("{} | local produces {} B, peer script {:?}, peer window {}, lazy_ack={}{}", sc.name, sc.local_out, sc.peer, sc.peer_rwnd, sc.lazy_ack, if sc.stuck.is_empty() { String::new() } else { format!(", local {} never ready", sc.stuck) }), exec: Box::new(move |r| exec(&sc, r)) });
     }
     let plan = Plan {
         ks: if thorough { vec![0, 1, 2, 3, 4, 5] } else { vec![0, 1, 2] },
